@@ -276,6 +276,9 @@ func readOperationPack(def Definition, repo repository.RepoData, resolvers entit
 	// Verify signature if we expect one
 	keys := author.ValidKeysAtTime(fmt.Sprintf(editClockPattern, def.Namespace), editTime)
 	if len(keys) > 0 {
+		if commit.Signature == nil {
+			return nil, fmt.Errorf("signature failure: the commit is not signed")
+		}
 
 		// this is a *very* convoluted and inefficient way to make OpenPGP accept to check a signature, but anything
 		// else goes against the grain and make it very unhappy.
